@@ -43,9 +43,11 @@ enum Api { Fold, FoldMut, TryFold, ForEach, ForEachMut, TryForEach, TryForEachMu
 enum Order { Forward, RevFirst, RevLast }
 #[derive(Clone, Copy, Debug, PartialEq)]
 enum Strat { Non, Ignore, Finish, NextN(u64) }
-/// the signal is sent before the call, or from inside the k-th function that starts
+/// the signal is sent before the call (and, in the Closed variants, the interrupt channel is closed before the call as well:
+/// every sender dropped / the receiver closed - the buffered signal is still to be honoured), or from inside the k-th
+/// function that starts
 #[derive(Clone, Copy, Debug, PartialEq)]
-enum When { Before, InStart(usize) }
+enum When { Before, BeforeSendersDropped, BeforeReceiverClosed, InStart(usize) }
 
 #[derive(Clone)]
 struct Case { n: usize, edges: Vec<(usize, usize)>, desc: String }
@@ -57,13 +59,13 @@ fn build(c: &Case) -> FnGraph<Acc> {
     b.build()
 }
 
-struct Ctx { trace: RefCell<Vec<Ev>>, tx: mpsc::Sender<InterruptSignal>, when: When, yields: RefCell<Lcg> }
+struct Ctx { trace: RefCell<Vec<Ev>>, tx: RefCell<Option<mpsc::Sender<InterruptSignal>>>, when: When, yields: RefCell<Lcg> }
 impl Ctx {
     fn on_start(&self, id: usize) -> u32 {
         let mut t = self.trace.borrow_mut();
         let k = t.iter().filter(|e| matches!(e, Ev::Start(_))).count();
         t.push(Ev::Start(id));
-        if self.when == When::InStart(k) { let _ = self.tx.try_send(InterruptSignal); t.push(Ev::Signal); fn_graph::verif_hooks::event_log_push_user(1, 0); }
+        if self.when == When::InStart(k) { let _ = self.tx.borrow().as_ref().unwrap().try_send(InterruptSignal); t.push(Ev::Signal); fn_graph::verif_hooks::event_log_push_user(1, 0); }
         self.yields.borrow_mut().below(3) as u32
     }
     fn on_end(&self, id: usize) { self.trace.borrow_mut().push(Ev::End(id)); }
@@ -89,7 +91,7 @@ fn bound(api: Api, strat: Strat, include: bool, when: When, n: usize) -> usize {
         Strat::Non | Strat::Ignore => n,
         Strat::NextN(k) if k >= 1 => k as usize,
         _ => match when {
-            When::Before => 0,
+            When::Before | When::BeforeSendersDropped | When::BeforeReceiverClosed => 0,
             When::InStart(_) => if include || api == Api::Stream { 1 } else { 0 },
         },
     }
@@ -97,9 +99,13 @@ fn bound(api: Api, strat: Strat, include: bool, when: When, n: usize) -> usize {
 
 fn run(c: &Case, api: Api, order: Order, strat: Strat, include: bool, when: When, seed: u64) -> (Vec<Ev>, Option<Vec<usize>>, usize, Option<bool>) {
     let _ = fn_graph::verif_hooks::event_log_take();
-    let (tx, rx) = mpsc::channel::<InterruptSignal>(4);
-    let ctx = Rc::new(Ctx { trace: RefCell::new(vec![]), tx, when, yields: RefCell::new(Lcg(seed)) });
-    if when == When::Before { ctx.tx.try_send(InterruptSignal).unwrap(); ctx.trace.borrow_mut().push(Ev::Signal); fn_graph::verif_hooks::event_log_push_user(1, 0); }
+    let (tx, mut rx) = mpsc::channel::<InterruptSignal>(4);
+    let ctx = Rc::new(Ctx { trace: RefCell::new(vec![]), tx: RefCell::new(Some(tx)), when, yields: RefCell::new(Lcg(seed)) });
+    if matches!(when, When::Before | When::BeforeSendersDropped | When::BeforeReceiverClosed) {
+        ctx.tx.borrow().as_ref().unwrap().try_send(InterruptSignal).unwrap(); ctx.trace.borrow_mut().push(Ev::Signal); fn_graph::verif_hooks::event_log_push_user(1, 0);
+        if when == When::BeforeSendersDropped { ctx.tx.borrow_mut().take(); }
+        if when == When::BeforeReceiverClosed { rx.close(); }
+    }
     let o = opts(order, strat, include, rx);
     let mut g = build(c);
     let cx = ctx.clone();
@@ -157,7 +163,7 @@ fn main() {
     let mut runs = 0usize;
     for (ci, c) in cases.iter().enumerate() {
         for api in apis { for order in [Order::Forward, Order::RevFirst, Order::RevLast] { for strat in [Strat::Non, Strat::Ignore, Strat::Finish, Strat::NextN(0), Strat::NextN(1), Strat::NextN(2)] { for include in [true, false] {
-            let mut whens = vec![When::Before, When::InStart(0)];
+            let mut whens = vec![When::Before, When::BeforeSendersDropped, When::BeforeReceiverClosed, When::InStart(0)];
             if c.n > 2 { whens.push(When::InStart(1)); }
             for when in whens {
                 runs += 1;
